@@ -263,7 +263,7 @@ def d3_checker(ctx, cls, appenders):
             x, neg = x.operand, True
         if isinstance(x, ast.Compare) and len(x.ops) == 1 and isinstance(x.ops[0], ast.Eq if neg else ast.NotEq):
             sides = [norm(x.left), norm(x.comparators[0])]
-            if all(s.endswith('.shape[1:]') for s in sides) and any(s.startswith('self.') for s in sides):
+            if all(s.endswith(('.shape[1:]', '._shape[1:]')) for s in sides) and any(s.startswith('self.') for s in sides):
                 good = t
     if good is None:
         zipped = [n for n in own_nodes(chk.node) if isinstance(n, ast.Call) and dotted(n.func) == 'zip'
